@@ -31,6 +31,7 @@ properties! {
     "C07" => c07,
     "C08" => c08,
     "C09" => c09,
+    "C10" => c10,
     "C11" => c11,
     "C12" => c12,
     "C13" => c13,
@@ -53,6 +54,7 @@ pub fn self_test() -> bool {
         && crate::oracle::linalg::self_test()
         && crate::oracle::quad::self_test()
         && crate::oracle::cdf::self_test()
+        && crate::oracle::dual::self_test()
         && crate::oracle::glm_ref::self_test()
         && crate::oracle::special::self_test()
         && c02::self_test()
